@@ -23,6 +23,7 @@ theorem content_bal {b : Bufs} (hb : BufsOk b) {c : Content} (h : c.Ok) : Bal (e
     the filter of `filter(f)` keeps balanced input balanced) -/
 def Op.OkGood : Op → Prop
   | .filter f => FOk f
+  | .wrap _ _ kids => Bal kids
   | .replace c => c.Ok
   | .before c => c.Ok
   | .after c => c.Ok
@@ -36,7 +37,7 @@ def Op.OkGood : Op → Prop
 def Op.OkDirty : Op → Prop
   | .remove => False
   | .replace _ => False
-  | .wrap _ _ => False
+  | .wrap _ _ _ => False
   | .cut _ _ => False
   | .copy _ _ => False
   | .filter _ => False
@@ -100,11 +101,11 @@ theorem applyOp_good (b : Bufs) (op : Op) {s s' : MStream} {b' : Bufs}
     simp only [applyOp, Option.some.injEq, Prod.mk.injEq] at h
     obtain ⟨rfl, rfl⟩ := h
     exact same (by unfold WellNested; rw [unwrap_balance hg]; exact hwn) (unwrap_good hg)
-  | wrap t a =>
+  | wrap t a kids =>
     simp only [applyOp, Option.some.injEq, Prod.mk.injEq] at h
     obtain ⟨rfl, rfl⟩ := h
-    have hw : Wrapper (unmark (inj ([Event.start t a].map MEv.ev))) (unmark [(none, MEv.ev (.end_ t))]) := by
-      simpa [inj, unmark] using wrapper_elem t a
+    have hw : Wrapper (unmark (inj ((Event.start t a :: kids).map MEv.ev))) (unmark [(none, MEv.ev (.end_ t))]) := by
+      rw [unmark_inj_ev]; simpa [unmark] using wrapper_elem_kids t a hok
     exact same (runGo_wn true hw hg hwn)
       (runGo_good true (inj_noneMarked _) (by intro p hp; simp at hp; simp [hp]) hg).1
   | replace c =>
@@ -143,6 +144,11 @@ theorem applyOp_good (b : Bufs) (op : Op) {s s' : MStream} {b' : Bufs}
     obtain ⟨rfl, rfl⟩ := h
     exact same (by unfold WellNested setAttr; rw [map_balance (attrEv_effPres n v)]; exact hwn)
       (map_good (attrEv_effPres n v) hg)
+  | attrFn n f =>
+    simp only [applyOp, Option.some.injEq, Prod.mk.injEq] at h
+    obtain ⟨rfl, rfl⟩ := h
+    exact same (by unfold WellNested setAttrFn; rw [map_balance (attrFnEv_effPres n f)]; exact hwn)
+      (map_good (attrFnEv_effPres n f) hg)
   | rename n =>
     simp only [applyOp, Option.some.injEq, Prod.mk.injEq] at h
     obtain ⟨rfl, rfl⟩ := h
@@ -238,6 +244,11 @@ theorem applyOp_dirty (b : Bufs) (op : Op) {s s' : MStream} {b' : Bufs}
     obtain ⟨rfl, rfl⟩ := h
     exact same (by unfold WellNested setAttr; rw [map_balance (attrEv_effPres n v)]; exact hwn)
       (map_inner (attrEv_effPres n v) hin)
+  | attrFn n f =>
+    simp only [applyOp, Option.some.injEq, Prod.mk.injEq] at h
+    obtain ⟨rfl, rfl⟩ := h
+    exact same (by unfold WellNested setAttrFn; rw [map_balance (attrFnEv_effPres n f)]; exact hwn)
+      (map_inner (attrFnEv_effPres n f) hin)
   | rename n =>
     simp only [applyOp, Option.some.injEq, Prod.mk.injEq] at h
     obtain ⟨rfl, rfl⟩ := h
@@ -258,7 +269,7 @@ theorem applyOp_dirty (b : Bufs) (op : Op) {s s' : MStream} {b' : Bufs}
       (map_inner (substEv_effPres p r n) hin)
   | remove => exact absurd hok (by simp [Op.OkDirty])
   | replace c => exact absurd hok (by simp [Op.OkDirty])
-  | wrap t a => exact absurd hok (by simp [Op.OkDirty])
+  | wrap t a kids => exact absurd hok (by simp [Op.OkDirty])
   | cut id acc => exact absurd hok (by simp [Op.OkDirty])
   | copy id acc => exact absurd hok (by simp [Op.OkDirty])
   | filter d => exact absurd hok (by simp [Op.OkDirty])
